@@ -46,6 +46,11 @@ func extractServer(repo string) (map[string]string, error) {
 		skel[fn.lean] = sk
 		fmt.Fprintf(&b, "/-- %s -/\ndef %s : List String := %s\n", fn.goName, fn.lean, goast.LeanStringList(sk))
 		fmt.Fprintf(&b, "def %sReturns : List String := %s\n", fn.lean, goast.LeanStringList(returnExprs(fd)))
+		switch fn.lean {
+		case "toProtobufDRR", "fromProtobufDRR", "encrypt", "decrypt":
+			fmt.Fprintf(&b, "/-- the composite literals %s returns, flattened to field-path:value -/\ndef %sFields : List String := %s\n",
+				fn.goName, fn.lean, goast.LeanStringList(literalFields(fd)))
+		}
 		if fn.lean == "toProtobufDRR" {
 			fmt.Fprintf(&b, "/-- field paths toProtobufDRR reads off the SDK's record (each pointer hop is a nil dereference if absent) -/\ndef toProtobufDRRReads : List String := %s\n",
 				goast.LeanStringList(selectorPaths(fd, "drr")))
@@ -178,6 +183,52 @@ func returnExprs(fd *ast.FuncDecl) []string {
 				xs = append(xs, goast.ExprString(e))
 			}
 			out = append(out, strings.Join(xs, ","))
+		}
+		return true
+	})
+	return out
+}
+
+// literalFields flattens the composite literals in the return statements: "Key.ParentKeyMeta.KeyId:drr.Key.ParentKeyMeta.ID".
+func literalFields(fd *ast.FuncDecl) []string {
+	var out []string
+	var flat func(prefix string, e ast.Expr)
+	flat = func(prefix string, e ast.Expr) {
+		if u, ok := e.(*ast.UnaryExpr); ok {
+			e = u.X
+		}
+		cl, ok := e.(*ast.CompositeLit)
+		if !ok {
+			out = append(out, prefix+":"+goast.ExprString(e))
+			return
+		}
+		if len(cl.Elts) == 0 {
+			out = append(out, prefix+":"+goast.ExprString(cl))
+		}
+		for _, el := range cl.Elts {
+			kv, ok := el.(*ast.KeyValueExpr)
+			if !ok {
+				out = append(out, prefix+":"+goast.ExprString(el))
+				continue
+			}
+			p := goast.ExprString(kv.Key)
+			if prefix != "" {
+				p = prefix + "." + p
+			}
+			flat(p, kv.Value)
+		}
+	}
+	ast.Inspect(fd.Body, func(n ast.Node) bool {
+		if r, ok := n.(*ast.ReturnStmt); ok {
+			for _, e := range r.Results {
+				x := e
+				if u, ok := x.(*ast.UnaryExpr); ok {
+					x = u.X
+				}
+				if _, ok := x.(*ast.CompositeLit); ok {
+					flat("", e)
+				}
+			}
 		}
 		return true
 	})
